@@ -480,6 +480,9 @@ def c17(tier, seed):
             chk.inconclusive.append(dict(how="defaults scenario timed out"))
         evals += 1
         shutil.rmtree(wd, ignore_errors=True)
+    if tier == "thorough":
+        release_cross_check(chk, seed, 300, 20, stats)
+        evals += stats.get("release_binary_vectors", 0) + stats.get("memcheck_vectors", 0)
     extra = dict(invocations=evals, stats=stats, distinct_cells=len(cells))
     return chk.finish(evals, len(cells),
                       "random option vectors where every option's value class is drawn independently: mode set {none,e,d,v,V,h,two modes} "
@@ -490,3 +493,129 @@ def c17(tier, seed):
                       "diagnostic; otherwise exit 0 iff the reference confirms the effect; plus the defaults scenario (-e -i F -> F.wenc, "
                       "printed key, -d restores F); distinct = (mode|i|o|k value-class cell, expectation, option set)",
                       samples, extra, min_evaluations=300)
+
+
+def release_binary():
+    """The repository's own CMake release build (guard off, LTO, -O3), cached by tree hash under /verif/build."""
+    key = wbuild.tree_hash("cmake-release")[:16]
+    d = os.path.join(wbuild.BUILD, "cmake-%s" % key)
+    b = os.path.join(d, "Wencry")
+    if os.path.exists(b):
+        return b
+    os.makedirs(d, exist_ok=True)
+    r = subprocess.run(["cmake", "-G", "Ninja", "-S", wbuild.REPO, "-B", d, "-DCMAKE_BUILD_TYPE=Release", "-DBUILD_TEST=OFF"], capture_output=True, text=True)
+    if r.returncode:
+        raise HarnessFailure("cmake configure failed: %s" % r.stderr[-1500:])
+    r = subprocess.run(["cmake", "--build", d, "-j16"], capture_output=True, text=True)
+    if r.returncode or not os.path.exists(b):
+        raise HarnessFailure("cmake build failed: %s" % (r.stdout + r.stderr)[-2000:])
+    return b
+
+
+def release_cross_check(chk, seed, nvec, nmem, stats):
+    """Thorough tier of C17: the same oracle on the CMake release binary, and a few vectors under valgrind memcheck
+    (invalid read / write / free only; definedness is in no property)."""
+    binary = release_binary()
+    rt = reftool()
+    env = runner.base_env()
+    rnd = random.Random(seed * 15485863 + 11)
+    root = os.path.join(chk.workdir, "cli_release")
+    os.makedirs(root, exist_ok=True)
+    wcache = {}
+
+    def mk_wenc(plain, key, cm, hm):
+        k = (plain, key, cm, hm)
+        if k not in wcache:
+            pi, po = os.path.join(root, "p%d" % len(wcache)), os.path.join(root, "w%d" % len(wcache))
+            with open(pi, "wb") as f:
+                f.write(plain)
+            subprocess.run([rt, "encrypt", pi, key.hex(), str(cm), str(hm), "5eed%02x" % rnd.randrange(1, 255), str(T_CLI), str(CHUNK), po], check=True)
+            with open(po, "rb") as f:
+                wcache[k] = f.read()
+            os.unlink(pi)
+            os.unlink(po)
+        return wcache[k]
+
+    vecs = [(i, gen_vector(rnd, rt, os.path.join(root, "v%d" % i), mk_wenc), os.path.join(root, "v%d" % i)) for i in range(nvec)]
+
+    def work(item):
+        i, v, wd = item
+        if not prepare(v, wd):
+            return item, None
+        return item, run_one(binary, v, wd, env)
+
+    with ThreadPoolExecutor(max_workers=16) as ex:
+        results = list(ex.map(work, vecs))
+    n = 0
+    for (i, v, wd), res in results:
+        if res is not None:
+            n += 1
+            judge(chk, v, res, rt, wd, stats)
+        shutil.rmtree(wd, ignore_errors=True)
+    stats["release_binary_vectors"] = n
+    # memcheck
+    m = 0
+    for j in range(nmem):
+        wd = os.path.join(root, "m%d" % j)
+        v = gen_vector(rnd, rt, wd, mk_wenc)
+        if not prepare(v, wd):
+            continue
+        cmd = ["valgrind", "-q", "--error-exitcode=99", "--undef-value-errors=no", "--leak-check=no", binary] + v.argv()
+        try:
+            r = subprocess.run(cmd, cwd=wd, stdin=subprocess.DEVNULL, capture_output=True, timeout=600)
+        except subprocess.TimeoutExpired:
+            chk.inconclusive.append(dict(how="memcheck run timed out"))
+            shutil.rmtree(wd, ignore_errors=True)
+            continue
+        m += 1
+        err = r.stderr.decode("latin1")
+        if r.returncode == 99 or "Invalid read" in err or "Invalid write" in err or "Invalid free" in err:
+            kind = re.search(r"(Invalid (?:read|write|free)[^\n]*)", err)
+            chk.add_violation("C17|memcheck|%s" % (kind.group(1)[:40] if kind else "error"), "valgrind memcheck reported a memory error on an option vector",
+                              argv=[a[:60] for a in v.argv()], stderr_tail=err[-2500:])
+        shutil.rmtree(wd, ignore_errors=True)
+    stats["memcheck_vectors"] = m
+
+
+def prod_oversubscribed(chk, seed, nruns):
+    """C03 thorough: production constants (16 MiB chunks), real binary, 2x more concurrent runs than cores; every
+    output must decrypt (by the reference) to the input and every decryption must restore it."""
+    binary = cli_binary("plain")
+    rt = reftool()
+    rnd = random.Random(seed * 7 + 99)
+    root = os.path.join(chk.workdir, "oversub")
+    os.makedirs(root, exist_ok=True)
+    src = os.path.join(root, "F")
+    n = 40 * 1024 * 1024 + 12345
+    with open(src, "wb") as f:
+        blk = bytes(rnd.randrange(256) for _ in range(65536))
+        for _ in range(n // 65536 + 1):
+            f.write(blk)
+        f.truncate(n)
+    key = bytes(rnd.randrange(256) for _ in range(16))
+    k64 = b64key(key)
+    ev = dict(runs=0, ok=0)
+
+    def one(i):
+        wd = os.path.join(root, "r%d" % i)
+        os.makedirs(wd, exist_ok=True)
+        cm = i % 5
+        r1 = subprocess.run([binary, "-e", "-i", src, "-o", "W", "-k", k64, "--cmode", str(cm), "-n"], cwd=wd, capture_output=True, timeout=1800)
+        r2 = subprocess.run([binary, "-d", "-i", "W", "-o", "D", "-k", k64, "-n"], cwd=wd, capture_output=True, timeout=1800)
+        ok_ref = subprocess.run([rt, "decrypt", os.path.join(wd, "W"), key.hex(), str(T_CLI), str(CHUNK), os.path.join(wd, "R")], capture_output=True, text=True).stdout.startswith("OK")
+        same_d = subprocess.run(["cmp", "-s", src, os.path.join(wd, "D")]).returncode == 0
+        same_r = ok_ref and subprocess.run(["cmp", "-s", src, os.path.join(wd, "R")]).returncode == 0
+        shutil.rmtree(wd, ignore_errors=True)
+        return i, cm, r1.returncode, r2.returncode, same_d, same_r
+
+    with ThreadPoolExecutor(max_workers=32) as ex:
+        for i, cm, rc1, rc2, same_d, same_r in ex.map(one, range(nruns)):
+            ev["runs"] += 1
+            if rc1 == 0 and rc2 == 0 and same_d and same_r:
+                ev["ok"] += 1
+            else:
+                chk.add_violation("C03|prod-oversubscribed|%s" % ("enc-output-differs" if not same_r else "dec-output-differs" if not same_d else "nonzero-exit"),
+                                  "production-constant run under CPU over-subscription gave wrong output", run=i, cmode=cm, rc_enc=rc1, rc_dec=rc2,
+                                  reference_decrypts_to_input=same_r, decrypt_restores_input=same_d)
+    shutil.rmtree(root, ignore_errors=True)
+    return ev
